@@ -143,6 +143,7 @@ class ZoneFn:
         self.edge_mods = {}         # (switch_block, succ) -> [(sym, c, m)]  meaning (sym + c) % m == 0 on that edge
         self.fresh = 0
         self.sym_bound = {}
+        self.scaled = {}       # opaque symbol -> ('div'|'mul', x, c, block): x / c or c * x
         self.sym_le = {}       # opaque symbol -> a term it never exceeds (quotients, differences)
         self.elem_of = {}      # symbol of one element read -> elem:<container> that bounds it
         self._ub_guard = set()
@@ -775,6 +776,8 @@ class ZoneFn:
             if a[0] is None:
                 return (None, a[1] // b[1] if base == 'Div' else a[1] % b[1])
             r = self._opaque(l)
+            if base == 'Div':
+                self.scaled[r[0]] = ('div', a, b[1], bi)
             ub = (self.sym_ub(a[0]) + a[1]) // b[1] if base == 'Div' else b[1] - 1
             if 0 <= ub <= UMAX:
                 self.global_facts.append((None, r, (None, ub)))
@@ -792,6 +795,8 @@ class ZoneFn:
             # constant * symbolic: an opaque value with the scaled upper bound of the symbolic factor
             c, x = (a[1], b) if a[0] is None else (b[1], a)
             r = self._opaque(l)
+            if c >= 1:
+                self.scaled[r[0]] = ('mul', x, c, bi)
             ub = c * (self.sym_ub(x[0]) + x[1])
             if 0 <= ub <= UMAX:
                 self.global_facts.append((None, r, (None, ub)))
@@ -1624,6 +1629,17 @@ class ZoneFn:
             return self._fact_cache[b]
         facts = self._facts_at(b)
         facts = [(a, c) for (a, c) in facts if not self.unstable(a) and not self.unstable(c)]
+        # x / c and c * x are not difference constraints: carry the constant bounds of x over to them
+        for r, (kind, x, c, where) in sorted(self.scaled.items()):
+            if (where is not None and not self.body.dominates(where, b)) or self.unstable(x) or self.unstable((r, 0)):
+                continue
+            lo = dbm_lower(facts, x, self.sym_ub)
+            if lo is not None and lo > 0:
+                facts.append(((None, lo // c if kind == 'div' else lo * c), (r, 0)))
+            if kind == 'div':
+                hi = dbm_upper(facts, x, self.sym_ub)
+                if hi is not None and 0 <= hi < UMAX:
+                    facts.append(((r, 0), (None, hi // c)))
         self._fact_cache[b] = facts
         return facts
 
